@@ -307,7 +307,7 @@ func main() {
 	r := ev.Start("C06", "fault_enumeration")
 	var scs []*mcx.Scenario
 	for _, R := range ev.Pick(r, []uint32{0, 1, 2}, []uint32{0, 1, 2, 4}) {
-		scs = append(scs, scenario(cfg{R: R, NStart: 1, Events: ev.Pick(r, 3, 4)}))
+		scs = append(scs, scenario(cfg{R: R, NStart: 1, Events: ev.Pick(r, 3, 5)}))
 	}
 	scs = append(scs, scenario(cfg{R: 4, NStart: 1, Events: ev.Pick(r, 2, 3)}))
 	scs = append(scs, scenario(cfg{R: 2, NStart: 1, Events: 1, WriteFail: true}))
